@@ -245,6 +245,7 @@ func runO(t *testing.T, ch *vs.Choices, prop, tier string, render bool) *vs.RunO
 		}()
 		synctest.Test(t, func(t *testing.T) {
 			sim := vs.NewSim(ch)
+			sim.Strip = dir
 			sim.KeepLog = render
 			sim.ParkMode = "chunk"
 			sim.Strategy = vs.NewStrategy(ch, []string{"random", "random", "sticky", "pct", "starve"})
